@@ -1,7 +1,8 @@
 (* Types.v -- executable model of hidc's elaborator (`evaluate` / `cast` / `coercible` / `coerce`
    of hidc/ast/*.py) on expressions, statements, blocks, functions and programs.  Property C07.
 
-   The model mirrors THE CODE THAT EXISTS (defects F5, F6, F7 included); the documented typing
+   The model mirrors THE CODE THAT EXISTS (defect F5 included; F6 and F7 were fixed in the
+   repository and the model follows the fixed code); the documented typing
    rules are separate statements proved (or refuted with a witness) about it below.
    Data tables (types, cast maps, coercible pair set, operator table, builtin signatures) come
    from the regenerated Gen/GenTypes.v. *)
@@ -107,6 +108,7 @@ Inductive err : Type :=
 | EArrayAmbiguous
 | ENestedArray
 | EArrayUnresolvable
+| EArrayEmptyElement                 (* "Array elements cannot be empty" *)
 | ENoMatchingFunction (f : ident) (args : list ty)
 | EFold (msg : string)               (* Division by zero / Modulus of zero *)
 | ESpeculateType (t : ty)
@@ -383,6 +385,7 @@ Fixpoint arr_pick (vs : list texpr) (cands : list ty) (seen : list ty) : result 
       else match t with
            | TArr _ _ => Err ENestedArray
            | TData d =>
+               if dty_beq d EMPTY then Err EArrayEmptyElement else
                if forallb (fun v => coercible v t) vs
                then OK (TArrLit vs (TArr d true) arrayliteral_locked_default)
                else arr_pick vs tl (t :: seen)
@@ -612,7 +615,7 @@ Definition lookup_const (e : texpr) : bool :=
   | TVar v => v_const v
   | TIndex src _ =>
       match ty_of src with
-      | TData STRING => false                  (* F7: ArrayLookup.const is False for strings *)
+      | TData STRING => true                   (* strings are immutable *)
       | TArr _ c => c
       | _ => true
       end
@@ -1569,19 +1572,17 @@ Definition target_ok (l : texpr) : bool := is_assignable l && negb (lookup_const
 Definition assign_ok (_ : option dty) (s : tstmt) : bool :=
   match s with TSAssign l _ | TSIncAssign l _ _ => target_ok l | _ => true end.
 
-(** what target_ok says: the target is a non-const variable, or an element of a non-const
-    array -- or an element of a STRING (defect F7: ArrayLookup.const is False for strings) *)
+(** what target_ok says: the target is a non-const variable or an element of a non-const array
+    (never an element of a string: ArrayLookup.const is True for strings) *)
 Lemma target_ok_shape : forall l, target_ok l = true ->
   (exists v, l = TVar v /\ v_const v = false) \/
-  (exists src i el, l = TIndex src i /\ ty_of src = TArr el false) \/
-  (exists src i, l = TIndex src i /\ ty_of src = TData STRING).
+  (exists src i el, l = TIndex src i /\ ty_of src = TArr el false).
 Proof.
   intros l H. unfold target_ok in H. apply andb_prop in H as [H1 H2]. apply negb_true_iff in H2.
   destruct l; simpl in H1; try discriminate.
   - left. eauto.
   - simpl in H2. destruct (ty_of l1) as [[]|el []] eqn:T; try discriminate.
-    + right. right. eauto.
-    + right. left. eauto 6.
+    right. eauto 6.
 Qed.
 
 Lemma elab_assign_target : forall en l r mk p,
@@ -1714,7 +1715,7 @@ Qed.
 
 (** No accepted program assigns to a const variable or to an element of a const array:
     every assignment target in the checked tree is a non-const variable, an element of a
-    non-const array -- or (F7) an element of a string. *)
+    non-const array. *)
 Theorem no_assign_to_const : forall u p tp,
   elab_program u p = OK tp -> funcs_all assign_ok tp = true.
 Proof.
@@ -1728,47 +1729,51 @@ Proof.
   intros. eapply (elab_program_all return_ok return_ok_local); eauto.
 Qed.
 
-(** F7: the string-element half of "no assignment to a string element" is FALSE of the code. *)
-Definition assigns_to_string_element (s : tstmt) : bool :=
-  negb (stmt_all (fun x => match x with
-                           | TSAssign (TIndex src _) _ | TSIncAssign (TIndex src _) _ _ =>
-                               negb (ty_eqb (ty_of src) (TData STRING))
-                           | _ => true
-                           end) s).
+(** No accepted program assigns to an element of a string (`s[0] = 'c'`, `s[0] += 1`). *)
+Definition not_string_target (_ : option dty) (s : tstmt) : bool :=
+  match s with
+  | TSAssign (TIndex src _) _ | TSIncAssign (TIndex src _) _ _ =>
+      negb (ty_eqb (ty_of src) (TData STRING))
+  | _ => true
+  end.
 
+Lemma local_prop_mono : forall P Q : option dty -> tstmt -> bool,
+  local_prop P -> (forall rt s, P rt s = true -> Q rt s = true) -> local_prop Q.
+Proof. intros P Q HP HI en s t en' H. apply HI. eapply HP; eauto. Qed.
+
+Lemma target_ok_not_string : forall src i,
+  target_ok (TIndex src i) = true -> negb (ty_eqb (ty_of src) (TData STRING)) = true.
+Proof.
+  intros src i H. unfold target_ok in H. apply andb_prop in H as [_ H]. apply negb_true_iff in H.
+  simpl in H. destruct (ty_of src) as [[]|el k]; try reflexivity; discriminate.
+Qed.
+
+Theorem no_assign_to_string_element : forall u p tp,
+  elab_program u p = OK tp -> funcs_all not_string_target tp = true.
+Proof.
+  intros. eapply (elab_program_all not_string_target); eauto.
+  apply (local_prop_mono assign_ok); [exact assign_ok_local|].
+  intros rt s Hs. destruct s; try reflexivity; simpl in *;
+    destruct lhs; try reflexivity; now apply target_ok_not_string in Hs.
+Qed.
+
+(** the former F7 / F6 witnesses are now rejected *)
 Definition f7_witness : program :=
   mkProgram []
     [mkFdecl EMPTY (mkId "f" FL_NONE) []
        [SDecl (mkVar "s" (TData STRING) false) (EStr "ab");
         SAssign (EIndex (EVar "s") (EInt 0)) (EChar 99)]].
 
-Theorem string_element_assignment_refuted : exists p tp,
-  elab_program false p = OK tp /\
-  existsb (fun tf => assigns_to_string_element (tf_body tf)) (tp_funcs tp) = true.
-Proof. exists f7_witness. eexists. split; [vm_compute; reflexivity | vm_compute; reflexivity]. Qed.
-
-(** F6: an array literal of element type `empty` is accepted and typed `const empty[]`. *)
 Definition f6_witness : program :=
   mkProgram []
     [mkFdecl EMPTY (mkId "e" FL_NONE) [] [];
      mkFdecl EMPTY (mkId "f" FL_NONE) []
        [SExpr (ECall (mkId "write" FL_NONE) [ELen (EArr [ECall (mkId "e" FL_NONE) []])])]].
 
-Fixpoint has_empty_array (e : texpr) : bool :=
-  match e with
-  | TArrLit (_ :: _) (TArr EMPTY _) _ => true
-  | TLen s => has_empty_array s
-  | TCall _ args _ => existsb has_empty_array args
-  | _ => false
-  end.
-
-Theorem empty_typed_array_refuted : exists p tp,
-  elab_program false p = OK tp /\
-  existsb (fun tf => match tf_body tf with
-                     | TSBlock (TSExpr e :: _) _ => has_empty_array e
-                     | _ => false
-                     end) (tp_funcs tp) = true.
-Proof. exists f6_witness. eexists. split; [vm_compute; reflexivity | vm_compute; reflexivity]. Qed.
+Lemma former_defect_witnesses_rejected :
+  elab_program false f7_witness = Err EAssignConst /\
+  elab_program false f6_witness = Err EArrayEmptyElement.
+Proof. split; vm_compute; reflexivity. Qed.
 
 (* ------------------------------------------------------------------------------------------ *)
 (** ** Well-formedness of checked expressions; no nested arrays *)
@@ -1823,14 +1828,16 @@ Proof.
   - apply H14; apply IH.
 Qed.
 
-(** Every array literal has an array type and scalar-typed, well-formed elements (of exactly
-    the element type once it is type-locked); every Volatile wraps an array. *)
+(** Every array literal has an array type and scalar-typed, non-`empty`-typed, well-formed
+    elements (of exactly the element type once it is type-locked); every Volatile wraps an
+    array. *)
 Fixpoint wf (e : texpr) : bool :=
   match e with
   | TArrLit vs t locked =>
       is_array t &&
       forallb (fun v => wf v && is_scalar (ty_of v) &&
-                        (negb locked || ty_eqb (ty_of v) (TData (el_of t)))) vs
+                        (negb locked || ty_eqb (ty_of v) (TData (el_of t))) &&
+                        negb (ty_eqb (ty_of v) (TData EMPTY))) vs
   | TIndex s i => wf s && wf i
   | TLen s => wf s
   | TCall _ args _ => forallb wf args
@@ -1884,6 +1891,35 @@ Proof.
   - destruct (cast x (TData el)) as [y|] eqn:E; [|discriminate].
     destruct (map_result (fun v => cast v (TData el)) l) as [tl|] eqn:E2; [|discriminate].
     inversion H; subst. constructor; [eapply cast_type; eauto | eapply IH; eauto].
+Qed.
+
+(** an `empty`-typed expression is coercible to nothing else, and nothing else can be cast to
+    `empty` *)
+Lemma empty_not_coercible : forall e d,
+  ty_of e = TData EMPTY -> coercible e (TData d) = true -> d = EMPTY.
+Proof.
+  intros e d T C.
+  assert (P : coercible_plain (TData EMPTY) (TData d) = true -> d = EMPTY).
+  { intros H. apply never_from_empty in H. now inversion H. }
+  destruct e; simpl in T, C; try discriminate; try (rewrite T in C; now apply P).
+  - destruct (is_arith c); discriminate.
+  - destruct (is_arith c); discriminate.
+Qed.
+
+Lemma cast_plain_to_empty : forall e t e',
+  cast_plain e t (TData EMPTY) = OK e' -> t = TData EMPTY.
+Proof.
+  intros e t e' H. destruct t as [[]|[] []]; vm_compute in H; try discriminate; reflexivity.
+Qed.
+
+Lemma cast_to_empty : forall e e',
+  wf e = true -> cast e (TData EMPTY) = OK e' -> ty_of e = TData EMPTY.
+Proof.
+  induction e using texpr_ind'; intros e' W HC; simpl in HC;
+    try (apply cast_plain_to_empty in HC; exact HC);
+    try (vm_compute in HC; discriminate).
+  (* TVolatile *)
+  simpl in W. apply andb_prop in W as [W A]. rewrite (IHe _ W HC) in A. discriminate.
 Qed.
 
 Lemma cast_tail_wf : forall e t new e',
@@ -1955,9 +1991,18 @@ Proof.
       { eapply (map_result_Forall _ (fun v => wf v = true)); [| |exact E].
         - rewrite Forall_forall in *. intros x Hx y Wx Ex. eapply H; eauto.
         - rewrite Forall_forall. intros x Hx. specialize (W x Hx).
-          apply andb_prop in W as [W _]. apply andb_prop in W as [W _]. exact W. }
+          apply andb_prop in W as [W _]. apply andb_prop in W as [W _].
+          apply andb_prop in W as [W _]. exact W. }
+      destruct (dty_beq el' EMPTY) eqn:EM.
+      { (* a literal with elements cannot be cast to empty[]: its elements are not empty-typed *)
+        apply dty_beq_eq in EM. subst el'. destruct vs as [|x vs0]; [simpl in E; inversion E; reflexivity|].
+        exfalso. simpl in E. destruct (cast x (TData EMPTY)) as [x'|] eqn:EX; [|discriminate].
+        specialize (W x (or_introl eq_refl)). apply andb_prop in W as [W NE].
+        apply andb_prop in W as [W _]. apply andb_prop in W as [W _].
+        rewrite (cast_to_empty _ _ W EX) in NE. discriminate. }
       rewrite forallb_forall. intros v' Hv'.
-      rewrite Forall_forall in HT, HW. rewrite (HW v' Hv'), (HT v' Hv'). simpl. destruct el'; reflexivity.
+      rewrite Forall_forall in HT, HW. rewrite (HW v' Hv'), (HT v' Hv'). simpl.
+      destruct el'; try reflexivity; discriminate.
   - (* TVolatile *) simpl in W. apply andb_prop in W as [W _]. eapply IHe; eauto.
 Qed.
 
@@ -1985,12 +2030,16 @@ Proof.
   intros vs cands. induction cands as [|t tl IH]; intros seen te W H; simpl in H; [discriminate|].
   destruct (existsb (ty_eqb t) seen); [eapply IH; eauto|].
   destruct t as [d|]; [|discriminate].
+  destruct (dty_beq d EMPTY) eqn:NE; [discriminate|].
   destruct (forallb (fun v => coercible v (TData d)) vs) eqn:C; [|eapply IH; eauto].
   inversion H; subst. simpl. rewrite forallb_forall in *. intros v Hv.
-  rewrite (W v Hv). simpl. rewrite andb_true_r.
-  destruct (ty_of v) eqn:T; [reflexivity|].
-  exfalso. pose proof (arr_not_coercible_scalar v d (W v Hv)) as A. rewrite T in A.
-  rewrite (C v Hv) in A. discriminate (A eq_refl).
+  rewrite (W v Hv). simpl.
+  destruct (ty_of v) as [dv|] eqn:T.
+  - simpl. destruct (dty_beq dv EMPTY) eqn:EV; [|reflexivity].
+    exfalso. apply dty_beq_eq in EV. subst dv.
+    pose proof (empty_not_coercible v d T (C v Hv)) as D. subst d. discriminate.
+  - exfalso. pose proof (arr_not_coercible_scalar v d (W v Hv)) as A. rewrite T in A.
+    rewrite (C v Hv) in A. discriminate (A eq_refl).
 Qed.
 
 Lemma at_subst_wf : forall e, is_primitive e = true -> wf (at_subst e) = true.
@@ -2206,7 +2255,8 @@ Qed.
 (** "nested ... arrays" are rejected: in every accepted program every array literal (anywhere
     in any expression) has an array type whose elements are scalar-typed expressions, the
     elements of a type-locked literal have exactly its element type, and a Volatile only ever
-    wraps an array.  (The element type may still be `empty`: see empty_typed_array_refuted.) *)
+    wraps an array; no element of an array literal has type `empty` (see also
+    no_empty_typed_arrays below). *)
 Theorem no_nested_arrays : forall u p tp,
   elab_program u p = OK tp ->
   funcs_all stmt_exprs_wf tp = true /\ forallb (stmt_all (stmt_exprs_wf None)) (tp_vars tp) = true.
@@ -2220,6 +2270,82 @@ Proof.
     destruct (elab_funcs (snd g) (p_funcs p)) as [fs|]; [|discriminate].
     inversion H; subst. simpl.
     apply (elab_globals_all stmt_exprs_wf stmt_exprs_wf_local) in G. apply G.
+Qed.
+
+(** "empty-typed arrays" are rejected: no array literal of an accepted program has an element
+    of type `empty` (the literal `[]`, which has no elements, keeps the placeholder type
+    `const empty[]` until it is coerced). *)
+Fixpoint no_empty_elems (e : texpr) : bool :=
+  match e with
+  | TArrLit vs _ _ =>
+      forallb (fun v => no_empty_elems v && negb (ty_eqb (ty_of v) (TData EMPTY))) vs
+  | TIndex s i => no_empty_elems s && no_empty_elems i
+  | TLen s => no_empty_elems s
+  | TCall _ args _ => forallb no_empty_elems args
+  | TCast _ x => no_empty_elems x
+  | TVolatile x => no_empty_elems x
+  | TUn _ x _ => no_empty_elems x
+  | TBin _ l r _ => no_empty_elems l && no_empty_elems r
+  | TSpec l r => no_empty_elems l && no_empty_elems r
+  | TArrInit _ l => no_empty_elems l
+  | _ => true
+  end.
+
+Lemma wf_no_empty_elems : forall e, wf e = true -> no_empty_elems e = true.
+Proof.
+  induction e using texpr_ind'; intros W; simpl in W |- *; try reflexivity.
+  - apply andb_prop in W as [_ W]. rewrite forallb_forall in *. rewrite Forall_forall in H.
+    intros v Hv. specialize (W v Hv). apply andb_prop in W as [W NE].
+    apply andb_prop in W as [W _]. apply andb_prop in W as [W _].
+    rewrite (H v Hv W), NE. reflexivity.
+  - apply andb_prop in W as [W1 W2]. now rewrite IHe1, IHe2.
+  - now apply IHe.
+  - rewrite forallb_forall in *. rewrite Forall_forall in H. intros v Hv. apply H; auto.
+  - now apply IHe.
+  - apply andb_prop in W as [W _]. now apply IHe.
+  - now apply IHe.
+  - apply andb_prop in W as [W1 W2]. now rewrite IHe1, IHe2.
+  - apply andb_prop in W as [W1 W2]. now rewrite IHe1, IHe2.
+  - now apply IHe.
+Qed.
+
+Definition stmt_exprs_no_empty (_ : option dty) (s : tstmt) : bool :=
+  match s with
+  | TSDecl _ i => no_empty_elems i
+  | TSAssign l r => no_empty_elems l && no_empty_elems r
+  | TSIncAssign l r _ => no_empty_elems l && no_empty_elems r
+  | TSReturn (Some v) => no_empty_elems v
+  | TSExpr e => no_empty_elems e
+  | TSIf _ c _ => no_empty_elems c
+  | TSLoop _ c _ => no_empty_elems c
+  | _ => true
+  end.
+
+Lemma stmt_exprs_no_empty_local : local_prop stmt_exprs_no_empty.
+Proof.
+  apply (local_prop_mono stmt_exprs_wf); [exact stmt_exprs_wf_local|].
+  intros rt s H. destruct s; simpl in *; try reflexivity;
+    repeat match goal with
+           | H : _ && _ = true |- _ => apply andb_prop in H as [? ?]
+           end;
+    try (destruct val; [|reflexivity]);
+    rewrite ?wf_no_empty_elems by assumption; reflexivity.
+Qed.
+
+Theorem no_empty_typed_arrays : forall u p tp,
+  elab_program u p = OK tp ->
+  funcs_all stmt_exprs_no_empty tp = true /\
+  forallb (stmt_all (stmt_exprs_no_empty None)) (tp_vars tp) = true.
+Proof.
+  intros u p tp H. split.
+  - eapply (elab_program_all stmt_exprs_no_empty stmt_exprs_no_empty_local); eauto.
+  - unfold elab_program in H.
+    destruct (add_funcs [] builtin_fsigs); [|discriminate].
+    destruct (add_funcs a (map sig_of (p_funcs p))); [|discriminate].
+    destruct (elab_globals _ (p_vars p)) as [g|] eqn:G; [|discriminate].
+    destruct (elab_funcs (snd g) (p_funcs p)) as [fs|]; [|discriminate].
+    inversion H; subst. simpl.
+    apply (elab_globals_all stmt_exprs_no_empty stmt_exprs_no_empty_local) in G. apply G.
 Qed.
 
 (** coercible implies castable, for every well-formed expression (the general form of
@@ -2284,7 +2410,7 @@ Proof.
     simpl in W. apply andb_prop in W as [WA W]. rewrite forallb_forall in W.
     assert (I : is_ok (map_result (fun v => cast v (TData el')) vs) = true).
     { apply map_result_ok. intros x Hx. specialize (W x Hx).
-      apply andb_prop in W as [W1 WL]. apply andb_prop in W1 as [Wx Sx].
+      apply andb_prop in W as [W1 _]. apply andb_prop in W1 as [W1 WL]. apply andb_prop in W1 as [Wx Sx].
       rewrite Forall_forall in H. destruct k.
       - simpl in WL. apply ty_eqb_eq in WL. apply dty_beq_eq in C. subst el'.
         now apply cast_same_scalar_ok.
@@ -2629,14 +2755,27 @@ Definition C07_full_statement : Prop :=
      end) /\
   overload_spec_stmt.
 
-(** It does not hold of the code as it is: F7 (string element assignment) is accepted. *)
+(** It does not hold of the code as it is.  With F6 and F7 fixed, the witness is the narrowing
+    of an explicit-cast result: `byte x = true is int;` is accepted, because BoolValue.cast(INT)
+    builds a *shrinkable* IntValue (the dataclass default), whereas the documented rule makes only
+    numeric literals and arithmetic over byte-coercible operands coercible to byte (`1 is int`
+    and `b is int` for a bool variable b are rejected).  Other departures of the same kind, all
+    agreeing with the model: type errors in unreachable statements are never reported;
+    `[2, s] is bool[]` is rejected although every entry can be cast; `byte x = 5 ?? 5`. *)
+Definition narrowing_witness : program :=
+  mkProgram []
+    [mkFdecl EMPTY (mkId "t" FL_NONE) []
+       [SDecl (mkVar "x" (TData BYTE) false) (EIs (EBool true) (TData INT))]].
+
+Lemma narrowing_witness_facts :
+  (exists tp, elab_program false narrowing_witness = OK tp) /\ wt_program narrowing_witness = false.
+Proof. split; [eexists; vm_compute; reflexivity | vm_compute; reflexivity]. Qed.
+
 Theorem C07_full_statement_refuted : ~ C07_full_statement.
 Proof.
-  intros [H _]. specialize (H false f7_witness).
-  assert (E : exists tp, elab_program false f7_witness = OK tp) by (eexists; vm_compute; reflexivity).
-  destruct E as [tp E]. rewrite E in H. vm_compute in H. discriminate.
+  intros [H _]. specialize (H false narrowing_witness).
+  destruct narrowing_witness_facts as [[tp E] W]. rewrite E, W in H. discriminate.
 Qed.
-
 
 (* ========================================================================================== *)
 (** * C07_partial: the proved part of C07 *)
@@ -2662,13 +2801,15 @@ Definition C07_partial_stmt : Prop :=
   overload_spec_stmt /\
   (* (3) soundness of the rejections, on the checked tree of every accepted program *)
   ((forall u p tp, elab_program u p = OK tp ->
-      funcs_all assign_ok tp = true /\ funcs_all return_ok tp = true /\
+      funcs_all assign_ok tp = true /\ funcs_all not_string_target tp = true /\
+      funcs_all return_ok tp = true /\
       funcs_all stmt_exprs_wf tp = true /\
-      forallb (stmt_all (stmt_exprs_wf None)) (tp_vars tp) = true) /\
+      forallb (stmt_all (stmt_exprs_wf None)) (tp_vars tp) = true /\
+      funcs_all stmt_exprs_no_empty tp = true /\
+      forallb (stmt_all (stmt_exprs_no_empty None)) (tp_vars tp) = true) /\
    (forall l, target_ok l = true ->
       (exists v, l = TVar v /\ v_const v = false) \/
-      (exists src i el, l = TIndex src i /\ ty_of src = TArr el false) \/
-      (exists src i, l = TIndex src i /\ ty_of src = TData STRING)) /\
+      (exists src i el, l = TIndex src i /\ ty_of src = TArr el false)) /\
    (forall e, ty_of e = TData INT -> coercible e (TData BYTE) = true -> shrinkable_node e = true) /\
    (forall e el, denotes_const_array e = true -> coercible e (TArr el false) = false) /\
    (forall e new e', coerce e new = OK e' -> ty_of e' = new)) /\
@@ -2701,7 +2842,10 @@ Proof.
   - exact overload_spec.
   - split; [|split; [|split; [|split]]].
     + intros u p tp H. split; [eapply no_assign_to_const; eauto|].
-      split; [eapply returns_match; eauto|]. apply (no_nested_arrays u p tp H).
+      split; [eapply no_assign_to_string_element; eauto|].
+      split; [eapply returns_match; eauto|].
+      destruct (no_nested_arrays u p tp H) as [A B]. destruct (no_empty_typed_arrays u p tp H) as [C D].
+      repeat split; assumption.
     + exact target_ok_shape.
     + exact no_implicit_narrowing.
     + exact const_array_not_to_mutable.
